@@ -324,6 +324,7 @@ func TestC06(t *testing.T) {
 		var outHist []outTuple
 		errPingID := uint64(0x7700)
 		afterErrPing, afterTime, timeEvents := false, false, 0
+		afterHello := false
 		nPackets := c.Int("packets", 1, 40)
 		for k := 0; k < nPackets; k++ {
 			if c.Chance("direction.out", 1, 3) {
@@ -343,7 +344,14 @@ func TestC06(t *testing.T) {
 				}
 				continue
 			}
-			mode := c.Weighted("in.mode", 12, 4, 4, 2, 1) // fresh, retry of an earlier tuple, mirror of a local packet, error ping, time passes
+			mode := c.Weighted("in.mode", 12, 4, 4, 2, 1, 1) // fresh, retry of an earlier tuple, mirror of a local packet, error ping, time passes, sender sets up new keys
+			if afterErrPing && c.Chance("hello.after-error-ping", 1, 3) {
+				mode = 5
+			}
+			if afterHello && len(inHist) > 0 && c.Bool("retry.after-hello") {
+				mode = 1
+			}
+			afterHello = false
 			if afterErrPing && timeEvents < 2 && c.Bool("time.after-error-ping") {
 				mode = 4
 			}
@@ -375,6 +383,69 @@ func TestC06(t *testing.T) {
 				continue
 			}
 			si := c.Pick("in.sender", len(senders))
+			if mode == 5 {
+				// A sender sets up new end-to-end keys with the router (a genuine,
+				// complete hello exchange): that is about keys, it must not change
+				// what the firewall decided about the sender's connections.
+				s := senders[si]
+				if s.sess == nil {
+					continue
+				}
+				enc := state.NewEncryptionSession()
+				kx, kxt, err := enc.InitKeyClientStart()
+				if err != nil {
+					c.Fatalf("kx: %v", err)
+				}
+				body, _ := cbor.Marshal(map[string]any{"kx": kx, "kxt": kxt, "mtu": 1400})
+				errPingID++
+				f, err := builder.NewFrameV1(s.party.ID.Addr.IP, V.IP(), frame.RouterPing, nil, c07PingMsg(pingHdr{"i": errPingID, "t": "hello"}, body), nil)
+				if err != nil {
+					c.Fatalf("frame: %v", err)
+				}
+				if err := f.Seal(s.sess); err != nil {
+					c.Fatalf("seal hello: %v", err)
+				}
+				d, _ := f.FrameDataWithMargins(0, 0)
+				d = append([]byte(nil), d...)
+				f.ReturnToPool()
+				before := len(vn.Queue)
+				if res := vn.Inject(V, lV, d); res.Panicked {
+					c.Fatalf("hello ping panicked a worker: %v", vn.Panics)
+				}
+				done := false
+				for _, fl := range vn.Queue[before:] {
+					g, err := vnet.View(fl.Data)
+					if err != nil {
+						continue
+					}
+					if g.DstIP() == s.party.ID.Addr.IP && g.MessageType() == frame.RouterPing && g.Unseal(s.sess) == nil {
+						if _, _, rb, ok := c07PingParts(g.MessageData()); ok {
+							var resp struct {
+								KX  []byte `cbor:"kx"`
+								KXT string `cbor:"kxt"`
+							}
+							if cbor.Unmarshal(rb, &resp) == nil && len(resp.KX) > 0 && enc.InitKeyClientComplete(resp.KX, resp.KXT) == nil {
+								enc.InitCleanup()
+								s.sess.SetEncryptionSession(enc)
+								s.keyed = true
+								done = true
+							}
+						}
+					}
+					g.ReturnToPool()
+				}
+				vn.Queue = vn.Queue[:before]
+				if done {
+					c.Class("sender-set-up-new-keys")
+					afterHello = true
+				} else {
+					// The router answered nothing usable: it may have installed new keys
+					// that the sender does not have.
+					s.keyed = false
+					c.Class("sender-hello-not-completed")
+				}
+				continue
+			}
 			if mode == 3 {
 				// An authentic error ping from a sender (only its own connections may be affected).
 				s := senders[si]
